@@ -672,6 +672,18 @@ func (e *Enc) execConvert(in *ssa.Convert) {
 		e.setVal(in, e.bytesToString(x))
 	case isByteSlice(to) && isString(from):
 		e.setVal(in, e.stringToBytes(x))
+	case isRuneSlice(to) && isString(from):
+		// []rune(s): a fresh slice of the decoded runes (1..len(s) of them for a non-empty string)
+		ref := e.newRef(e.cur, "s2r")
+		n := e.fresh("s2r_len", "Int")
+		c := e.fresh("s2r_cap", "Int")
+		sl := sx("str-len", x)
+		e.assume(tAnd(tLe("0", n), tLe(n, sl), tImp(tLt("0", sl), tLe("1", n)), tLe(n, c), tLe(c, maxLenBound)))
+		e.setVal(in, sx("mk-slice", ref, "0", n, c))
+	case isString(to) && isRuneSlice(from):
+		// string(rs): between len(rs) and 4*len(rs) bytes of UTF-8
+		cc := e.havocVal(in, "r2s")
+		e.assume(tAnd(tLe(sx("s-len", x), sx("str-len", cc)), tLe(sx("str-len", cc), sx("*", "4", sx("s-len", x)))))
 	case isString(to) && isInteger(from):
 		c := e.havocVal(in, "runestr")
 		e.assume(tAnd(tLe("1", sx("str-len", c)), tLe(sx("str-len", c), "4")))
@@ -698,6 +710,15 @@ func (e *Enc) execConvert(in *ssa.Convert) {
 func rangeWithin(flo, fhi, lo, hi string) bool {
 	cmp := func(a, b string) int { return bigCmp(a, b) }
 	return cmp(flo, lo) >= 0 && cmp(fhi, hi) <= 0
+}
+
+func isRuneSlice(t types.Type) bool {
+	s, ok := t.Underlying().(*types.Slice)
+	if !ok {
+		return false
+	}
+	b, ok := s.Elem().Underlying().(*types.Basic)
+	return ok && b.Kind() == types.Int32
 }
 
 func isByteSlice(t types.Type) bool {
